@@ -135,7 +135,10 @@ class Layout:
             outs = self.format_lines(mk, lambda: self.sym_options(end_comment=False), level=0, fork=True)
             for ass, kind, val in outs:
                 if kind != "return":
-                    raise AnalysisError(f"_format raises {val} on the probe dictionary")
+                    # the printer itself (repository code, as evaluated) raises on a dictionary that only
+                    # differs from a printable one by its hidden keys: they reached a writer
+                    res.append((name, [], [f"the printer raises {val}"]))
+                    continue
                 leaked = sorted({a.name for a in atoms_in(val) if a.name.startswith("HIDDEN")})
                 res.append((name + (f" [{'; '.join(ass)}]" if ass else ""), val, leaked))
         # key/value block entered at the root
@@ -143,14 +146,16 @@ class Layout:
         outs = self.pprint_text(md, lambda: self.sym_options(end_comment=False), fork=True)
         for ass, kind, val in outs:
             if kind != "return":
-                raise AnalysisError(f"pprint raises {val} on a root METADATA block")
+                res.append(("root METADATA block with __position__", [], [f"the printer raises {val}"]))
+                continue
             leaked = sorted({a.name for a in atoms_in(val) if a.name.startswith("HIDDEN")})
             res.append(("root METADATA block with __position__", [val], leaked))
         # align_values exercises compute_max_key_length
         outs = self.format_lines(lambda: self.layer(hidden=True), lambda: self.sym_options(end_comment=False, align_values=True, indent=4), level=0, fork=True)
         for ass, kind, val in outs:
             if kind != "return":
-                raise AnalysisError(f"_format raises {val} with align_values")
+                res.append(("layer with hidden keys, align_values=True", [], [f"the printer raises {val}"]))
+                continue
             leaked = sorted({a.name for a in atoms_in(val) if a.name.startswith("HIDDEN")})
             res.append(("layer with hidden keys, align_values=True", val, leaked))
         return res
